@@ -585,6 +585,10 @@ class ProceduralResolver:
 	# Operator
 
 	def on_factor(self, node: defs.Factor, operator: IReflection, value: IReflection) -> IReflection:
+		# boolの符号演算(+b/-b/~b)の結果はint
+		if self.reflections.type_is(value.types, bool):
+			return self.reflections.from_standard(int).stack(node)
+
 		return value.stack(node)
 
 	def on_not_compare(self, node: defs.NotCompare, operator: IReflection, value: IReflection) -> IReflection:
